@@ -219,7 +219,7 @@ func (c13) Run(t *testing.T, tape *core.Tape, rcx *RunCtx) *core.Result {
 	res := &core.Result{}
 	sc := &c13Scenario{}
 	// every 40th run carries a sequence longer than any fixed line buffer
-	large := rcx.Index%40 == 7
+	large := core.Mix(uint64(rcx.Index), 0xc13)%40 == 7 // spread evenly over the worker processes
 	nrec := 1
 	switch tape.Weighted(35, 40, 20, 5) {
 	case 0:
